@@ -6,9 +6,12 @@ from mq.facts import CallSite
 
 EXPL = ("R10.1 each sink-level merge/insert/send body moves its by-value entry into exactly one consuming call on every path "
         "(drop-flag aware linearity; close/RootEntry::new/message wrapping are carriers); R10.7 every AggregateValue::insert strategy "
-        "consumes its value exactly once on every path on which it holds one; R10.2 flush drains the whole map and appends one result "
+        "consumes its value exactly once on every path on which it holds one; R10.9 each value strategy applies its "
+        "documented operation to (accumulator, value): Sum add_assign, KeepLast an unconditional `= Some(value)`, Flatten merge, Distribution / "
+        "Histogram add_value / record, the wrappers delegate to the inner insert; R10.2 flush drains the whole map and appends one result "
         "per drained item, built from the closed key and the closed aggregate; R10.3 the tee feeds and flushes both branches on every "
-        "path; R10.4 the worker handles Entry by exactly one merge and acknowledges a Flush only after flushing; R10.5 every spawned "
+        "path; R10.4 the worker handles Entry by exactly one merge and acknowledges a Flush only after flushing; R10.10 the future returned by the worker sink's flush sends its request and awaits the paired "
+        "acknowledgement on every path to completion (followed across its await points); R10.5 every spawned "
         "worker closure can return, and the disconnected outcome of the receive leads to Return through a final flush; R10.6 "
         "merge-on-drop guards take and merge exactly once; R10.8 (on the proc macro's own MIR) the generators of Merge/MergeRef impls "
         "interpolate the same field identifier into `accum.#f` and `input.#f` and skip only key/ignored fields. Not decided: "
@@ -82,6 +85,47 @@ def run(ctx):
                 check_linear(ctx, "R10.7", b, st, lambda cs, i: cs is None or cs.name in CONSUMERS + ("into_iter", "extend"), what="value-part")
             continue
         check_linear(ctx, "R10.7", b, 2, is_consumer, what="value")
+    # ------------------------------------------------------------------ R10.9 what each value strategy does with the value (table confirmed by reading value.rs / histogram.rs)
+    # strategy type suffix -> (operation, callee-name) ; "store-some" = `*accum = Some(value)` on every path
+    TABLE = {"value::Sum": ("call", "add_assign"), "value::KeepLast": ("store-some", None), "value::Flatten": ("call", "merge"),
+             "value::Distribution": ("call", "add_value"), "value::MergeOptions": ("call", "insert"), "value::CopyWrapper": ("call", "insert"),
+             "histogram::Histogram": ("call", ("add_value", "record", "record_many"))}
+    n9 = 0
+    for b in strat:
+        st_ = (b.impl.get("self_ty") or "")
+        ent = [(k, v) for k, v in TABLE.items() if (AG + "::" + k) == st_.split("<")[0]]
+        if not ent:
+            ctx.note("R10.9: strategy %s is not in the confirmed table (not judged)" % st_)
+            continue
+        kname, (op, callee) = ent[0]
+        n9 += 1
+        pr = Prov(b)
+        key = fnkey(b) + "#strategy-operation"
+        if op == "store-some":
+            sts = []
+            for i in b.live_blocks():
+                for s_ in b.stmts(i):
+                    if s_["k"] == "assign" and s_["lhs"]["l"] == 1 and [e[0] for e in s_["lhs"].get("p", [])] == ["deref"]:
+                        o = pr.operand(s_["rv"]["op"]) if s_["rv"]["k"] == "use" else (
+                            {("agg", i, s_["rv"].get("variant"))} | set().union(*[pr.operand(x) for x in s_["rv"]["ops"]]) if s_["rv"]["k"] == "agg" else set())
+                        if any(x[0] == "agg" and x[2] == "Some" for x in o) and any(x[0] == "arg" and x[1] == 2 for x in o):
+                            sts.append(i)
+            guards = [i for i in b.live_blocks() if b.term(i)["k"] == "switch" and not b.is_cleanup(i)]
+            ctx.check(bool(sts) and b.must_pass(sts) and not guards, "R10.9", key, loc(b),
+                      "%s does not unconditionally replace the accumulator by Some(value): the aggregate would not hold the last input" % kname,
+                      "*accum = Some(value) on every path, no branch")
+            continue
+        names = (callee,) if isinstance(callee, str) else callee
+        sites = [c for c in b.calls() if c.name in names and c.args and any(x[0] == "arg" and x[1] == 1 for x in pr.operand(c.args[0]))
+                 and (len(c.args) < 2 or kname == "histogram::Histogram" or any(x[0] == "arg" and x[1] == 2 for x in pr.operand(c.args[1])))]
+        others = [c for c in b.calls() if c.name in ("sub_assign", "mul_assign", "clone_from", "clear", "take", "replace") and c.args and
+                  any(x[0] == "arg" and x[1] == 1 for x in pr.operand(c.args[0]))]
+        plain_store = [i for i in b.live_blocks() for s_ in b.stmts(i) if s_["k"] == "assign" and s_["lhs"]["l"] == 1 and [e[0] for e in s_["lhs"].get("p", [])] == ["deref"]]
+        ctx.check(bool(sites) and not others and not plain_store, "R10.9", key, loc(b),
+                  "%s no longer folds the value into the accumulator with `%s(accum, value)` (found %s%s%s)" % (
+                      kname, "/".join(names), [c.name for c in sites], ", also " + str([c.name for c in others]) if others else "", ", plain overwrite of the accumulator" if plain_store else ""),
+                  "%s(accum, value)" % sites[0].name if sites else "")
+    ctx.floor("R10.9", "value strategies judged against the table", n9, 6)
     # ------------------------------------------------------------------ R10.2 flush emits everything
     fl = [b for b in F.all_bodies(AG) if b.name == "flush" and b.impl and (b.impl.get("trait") or "").endswith("::FlushableSink") and
           any(c.name == "drain" and "HashMap" in c.def_ for c in b.calls())]
@@ -248,6 +292,51 @@ def run(ctx):
                               "the worker exits on disconnect without emitting what it still holds (no flush on the path to Return)")
         elif err_t is None:
             ctx.bad("R10.5", key + "#disconnect-terminates", loc(cb, r.bb), "the result of the receive is not matched")
+    # ------------------------------------------------------------------ R10.10 the requesting side of a flush: send the request, then wait for its acknowledgement
+    from rules.c13 import logical_succ
+    nreq = 0
+    for b in F.all_bodies(AG):
+        if b.kind != "Closure" or not b.d.get("coroutine") or "::tests::" in b.path:
+            continue
+        par = (b.d.get("direct_parent") or b.d.get("parent") or "")
+        if not par.endswith("::flush"):
+            continue
+        sends_ = [c for c in b.calls() if c.is_in("std::sync::mpsc", "Sender::send", "SyncSender::send", "SyncSender::try_send")]
+        if not sends_:
+            continue
+        nreq += 1
+        key = fnkey(b)
+        pr = Prov(b)
+        succ = logical_succ(b)
+        ready = [i for i in b.live_blocks() if b.term(i)["k"] == "return" and any(
+            s_["k"] == "assign" and s_["lhs"]["l"] == 0 and s_["rv"]["k"] == "agg" and s_["rv"].get("variant") == "Ready" for s_ in b.stmts(i))]
+        polls = [c for c in b.calls() if c.is_trait_method("Future", "poll") and "oneshot::Receiver" in (c.self_ty or "")]
+
+        def reach_l(avoid):
+            seen, stk = {0}, [0]
+            while stk:
+                x = stk.pop()
+                if x in avoid:
+                    continue
+                for y in succ(x):
+                    if y not in seen:
+                        seen.add(y)
+                        stk.append(y)
+            return seen
+        ctx.check(bool(ready) and not (set(ready) & reach_l({c.bb for c in sends_})), "R10.10", key + "#always-sends-the-request", loc(b),
+                  "the flush future can complete without having sent a flush request to the worker (an early return / skipped request): it would "
+                  "return while entries merged before it are still unemitted", "every completion passes the send")
+        ctx.check(bool(polls) and not (set(ready) & reach_l({c.bb for c in polls})), "R10.10", key + "#completes-only-after-acknowledgement", loc(b),
+                  "the flush future can complete without awaiting the worker's acknowledgement", "every completion passes the await of the acknowledgement")
+        # the awaited receiver is the partner of the sender that travels in the request
+        chans = [c for c in b.calls() if c.is_in("tokio::sync::oneshot", "channel")]
+        paired = False
+        for ch in chans:
+            sent = any(any(x[0] in ("call", "callf") and x[1] == ch.bb for x in pr.operand(a)) for c in sends_ for a in c.args[1:])
+            intos = [c for c in b.calls() if c.is_trait_method("IntoFuture", "into_future") and any(x[0] in ("call", "callf") and x[1] == ch.bb for x in pr.operand(c.args[0]))]
+            paired = paired or (sent and bool(intos))
+        ctx.check(paired, "R10.10", key + "#awaits-the-channel-it-sent", loc(b), "the acknowledgement awaited is not the one whose sender was put into the flush request")
+    ctx.floor("R10.10", "flush request futures", nreq, 1)
     # one channel for both message kinds (type fact)
     ws = [a for a in F.adts.values() if a["crate"] == AG and any("std::sync::mpsc::Sender<" in f["ty"] for v in a["variants"] for f in v["fields"])]
     for a in ws:
